@@ -44,6 +44,11 @@ impl SWCurveConfig for Config {
         p: &bn::G1Projective<crate::Config>,
         scalar: &[u64],
     ) -> bn::G1Projective<crate::Config> {
+        // Slices wider than the scalar field (e.g. with leading zero limbs) do not fit
+        // `from_sign_and_limbs`; fall back to the generic double-and-add for them.
+        if scalar.len() > Fr::MODULUS.0.len() {
+            return ark_ec::scalar_mul::sw_double_and_add_projective(p, scalar);
+        }
         let s = Self::ScalarField::from_sign_and_limbs(true, scalar);
         GLVConfig::glv_mul_projective(*p, s)
     }
